@@ -467,14 +467,16 @@ int main(int argc, char** argv) {
   // digit lies before / at / after the 800th significant digit and whose last digit is zero or not: "was anything
   // non-zero dropped" has to be sticky over all dropped digits
   S.push_back({"tie_then_tail_around_digit_800", 6000, 400000, [](uint64_t, vf::Rng& r) {
+                 // moderate magnitudes (short exact expansion, padded with zeros) and, one time in three, any binade including
+                 // subnormals (the exact expansion itself has up to 770 digits; the fallback then has to shift LEFT with a full buffer)
                  uint64_t b = ((uint64_t)(1023 + (long)r.range(0, 100) - 30) << 52) | (r.next() & 0x000fffffffffffffULL);
+                 if (r.below(3) == 0) b = ((uint64_t)r.range(0, 2045) << 52) | (r.next() & 0x000fffffffffffffULL);
                  if (r.below(4) == 0) b = 0x4340000000000000ULL + r.below(4);  // 2^53 + ...: integer ties
                  long double lo = from_bits(b), hi = from_bits(b + 1);
                  long double mid = lo + (hi - lo) / 2;
                  std::string dig;
                  long e10;
                  exact_decimal(mid, dig, e10);
-                 if (dig.size() > 700) return;
                  static const char* tails[] = {"1", "10", "30", "100", "0001", "00010", "5000", "00", "9", "90", "000000000010", "00000000000000000000000000000070"};
                  std::string tail = tails[r.below(12)];
                  long target = (long)r.range(770, 840) - (long)dig.size() - (long)r.below(tail.size() + 1);
